@@ -186,5 +186,5 @@ NormalisedPowerZero == (Checked /\ ~attr.norm_raises) =>
     /\ \A k \in 1..Len(attr.sdmx_norms) : attr.usps[attr.loc[4] + k] + NormUsp(attr.sdmx_norms[k]) = 0
 \* the length-scale exponent scales as lambda^2 (used by DerivedRhoMultUsp and by every kernel's `a`)
 Emit == cfg # <<>> => PrintT(<<"CFG", cfg, attr>>)
-EmitPlanArgs == \A pa \in PlanArgSpace : PlanArgsUnspecified(pa) \/ PrintT(<<"PLANARG", pa, PlanArgsValid(pa)>>)
+EmitPlanArgs == cfg = cfg /\ \A pa \in PlanArgSpace : PlanArgsUnspecified(pa) \/ PrintT(<<"PLANARG", pa, PlanArgsValid(pa)>>)
 =============================================================================
